@@ -27,50 +27,8 @@ pub struct Sub {
     pub bound: &'static str,
 }
 
-pub const SUBS: &[Sub] = &[
-    Sub {
-        name: "c18_reloadid",
-        property: "C18",
-        configs: crate::h_c18::configs,
-        rule: "configs = (a) exhaustive sequential cases on one loom thread: all (old,new) in {0..4}^2 and all offer sequences of length <=3 for ReloadId::update; all operation sequences of length <=3 over {update,fetch_max,swap,store}x{0..4}+load from every initial value 0..4 for AtomicReloadId, vs a max reference; (b) every assignment of 1-2 operations from {update k, fetch_max k, swap k, load} to 2-3 threads (up to thread symmetry) x initial values; for each config loom enumerates every interleaving of the intercepted atomic operations (DPOR, C11 model). evaluations = loom executions + sequential cases; distinct = distinct (config, results, final value) observations",
-        bound: "threads 2-3, calls per thread 1-2 (3 threads x 2 mixed calls: thorough only; 3 threads x 2 updates over {1,2}: both tiers), ids 0..4 (sequential) / 0..3 (concurrent), no preemption bound",
-    },
-    Sub {
-        name: "c16_bytes_loom",
-        property: "C16",
-        configs: crate::h_c16::configs,
-        rule: "configs = constructor shape {from_slice len 3/0, from_vec exact/excess/zero capacity, SharedString from &str/String} x every valid program of <=L operations {clone, drop, send-a-clone, receive-and-drop} per thread (ring of 2-3 threads, up to rotation), main drops the original concurrently; contents/aliasing/liveness checked around every operation; for each config loom enumerates every interleaving of the refcount atomics and mailbox locks within the preemption bound; alloc/dealloc are loom-tracked. distinct = distinct (mail received, leftover, allocs, frees) observations",
-        bound: "quick: 2 threads x <=2 ops (all 7 constructors), 2 threads x <=3 ops (2 constructors), 3 threads x <=1 op (3 constructors), 3 threads x <=2 ops (from_vec with excess capacity); thorough: 2 threads x <=3 ops (all 7 constructors), 3 threads x <=2 ops (3 constructors)",
-    },
-    Sub {
-        name: "c17_cell_loom",
-        property: "C17",
-        configs: crate::h_c17::configs,
-        rule: "configs = seed type {with Drop, without Drop} x outcome vector over {Ok,Err} for 2-3 concurrent get_or_try_init/get_or_init callers x 0-2 polls of get by a further thread (+ with_value cells); every initialiser self-checks the seed and yields inside the closure; for each config loom enumerates every interleaving of the OnceCell's atomics/mutex/condvar within the preemption bound; drop ledger checked at quiescence and after dropping the cell. distinct = distinct (who ran, what each caller/poll saw) observations",
-        bound: "2-3 initialiser threads + optional poller thread (<=2 polls); same configs in both tiers",
-    },
-    Sub {
-        name: "c07_entry_loom",
-        property: "C07",
-        configs: crate::h_c07::configs,
-        rule: "configs = writers {1x1, 1x2, 1x3, 1+1, 2+1 writes} x readers {typed guard, untyped+downcast guard, mapped guard, typed then mapped, copied(), cloned(), read().clone(), Debug; 1-2 reader threads}; each reader copies value and reload id under its guard (or through the accessor), yields, and looks again; every access to the entry's value is a loom-tracked read/write event (TrackedCell), so an access that is not ordered by the lock is a `data-race`; for each config loom enumerates every interleaving of the entry's RwLock and atomic operations within the preemption bound. distinct = distinct (what each reader saw, final value, final id) observations",
-        bound: "1-2 writer threads, 1-2 reader threads, <=3 writes; same configs in both tiers; one writer + one reader with <=2 writes: unbounded",
-    },
-    Sub {
-        name: "c06_watch_loom",
-        property: "C06",
-        configs: crate::h_c06::configs,
-        rule: "configs = n in 1..3 writes by one writer x pollers {ReloadWatcher made before the writes / by the reader / from the untyped handle, reloaded_global, both alternately; 1-3 polls; 1-3 polling threads}; `if reported { read value }` after every poll; final polls after the joins; for each config loom enumerates every interleaving of the entry's RwLock and atomic operations within the preemption bound. distinct = distinct (poll answers per thread, final flag) observations",
-        bound: "1 writer thread, 1-3 poller threads, <=3 writes, <=3 polls; same configs in both tiers; one poller with <=2 polls and <=2 writes: unbounded",
-    },
-    Sub {
-        name: "c08_answers_loom",
-        property: "C08",
-        configs: crate::h_c08::configs,
-        rule: "configs = rounds per caller for 1-3 caller threads (1, 2, 1+1, 1+2, 2+2, 1+1+1; thorough also 1+1+2) against one reloader thread that answers a harness FIFO in order; the code under test is the real `struct Answers`/`impl Answers` of hot_reloading/mod.rs over the real std-flavoured Mutex/Condvar wrappers of utils/private.rs (parking_lot OFF) over loom's Mutex/Condvar; for each config loom enumerates every interleaving of the lock / condvar / atomic operations within the preemption bound; deadlock = loom finds no runnable thread. distinct = distinct event logs (request / publish / return order)",
-        bound: "1 reloader + 1-3 caller threads, 1-2 rounds per caller; preemption bound chosen per config (one caller: none; quick: 1+1 -> 3, 1+2 -> 2, 2+2 -> 2, 1+1+1 -> 1; thorough: 1+1 -> 5, 1+2 -> 3, 2+2 -> 3, 1+1+1 -> 2, 1+1+2 -> 1)",
-    },
-];
+/// The sub-checks of this binary (one bin target per kernel family, see Cargo.toml).
+use crate::SUBS;
 
 fn machinery(msg: &str) -> ! {
     eprintln!("MACHINERY: {msg}");
@@ -223,12 +181,28 @@ fn child_main(a: &[String]) -> ! {
         BRANCHES.store(0, Relaxed);
         let _ = take_outcomes();
         let mut b = loom::model::Builder::new();
-        b.preemption_bound = match cfg.bound {
+        let eff: Option<usize> = match cfg.bound {
             Bound::Unbounded => None,
             Bound::Tier => Some(bound),
             Bound::Fixed(n) => Some(n),
+            Bound::Adaptive(cheap) => {
+                static CHEAP: AtomicBool = AtomicBool::new(false);
+                let mut m = loom::model::Builder::new();
+                m.preemption_bound = None;
+                m.check(move || CHEAP.store(cheap(), Relaxed));
+                if CHEAP.load(Relaxed) {
+                    None
+                } else {
+                    Some(bound)
+                }
+            }
         };
-        b.max_branches = 2_000_000;
+        b.preemption_bound = eff;
+        BRANCHES.store(0, Relaxed); // the measurement above is not part of the config's count
+        OPS.store(0, Relaxed);
+        // below loom's hard per-execution capacity (u16 operation counter per thread): running into
+        // this limit gives loom's own "exceeded maximum number of branches" instead of an overflow
+        b.max_branches = 50_000;
         b.max_duration = Some(cap);
         b.checkpoint_interval = 500;
         b.max_permutations = None;
@@ -252,7 +226,7 @@ fn child_main(a: &[String]) -> ! {
         append(
             &out,
             &json!({"t": "done", "idx": idx, "name": cfg.name,
-                "bound": match cfg.bound { Bound::Unbounded => "unbounded".to_string(), Bound::Tier => bound.to_string(), Bound::Fixed(n) => n.to_string() },
+                "bound": eff.map_or("unbounded".to_string(), |n| n.to_string()),
                 "iters": ITERS.load(Relaxed), "branches": BRANCHES.load(Relaxed), "ops": OPS.load(Relaxed), "cases": CASES.load(Relaxed),
                 "outcomes": outs, "sample": sample, "secs": secs, "capped": t0.elapsed() >= cap}),
         );
@@ -353,7 +327,8 @@ fn run_part(sub: &Sub, tier: &str, bound: usize, j: usize, m: usize, dir: &std::
     }
 }
 
-fn classify(msg: &str) -> String {
+fn classify(msg: &str, loc: &str) -> String {
+    let in_loom_rt = loc.contains("/loom-") && loc.contains("/src/rt/");
     if let (Some(a), Some(b)) = (msg.find("[["), msg.find("]]")) {
         if a + 2 <= b {
             return msg[a + 2..b].to_string();
@@ -388,8 +363,9 @@ fn classify(msg: &str) -> String {
         } else {
             format!("deadlock:{shape}")
         }
-    } else if l.contains("max_branches") || l.contains("exceeded") || l.contains("branches") {
-        "no-progress".into()
+    } else if l.contains("maximum number of branches") || (in_loom_rt && (l.contains("with overflow") || l.contains("max_threads") || l.contains("max_branches") || l.contains("[loom internal bug]") || l.contains("threads.len() <"))) {
+        // a capacity of loom / of this harness, not a verdict (see `capacity` in run_subcheck)
+        "capacity".into()
     } else if l.contains("already mutably borrowed") || l.contains("already borrowed") {
         "harness-borrow".into()
     } else if l.contains("causality violation") || l.contains("concurrent") {
@@ -441,10 +417,10 @@ fn run_all(sub: &Sub, tier: &str, thorough: bool, jobs: usize, only: Option<&str
                 done.push(v);
             } else {
                 let msg = v["msg"].as_str().unwrap_or("").to_string();
-                let tag = classify(&msg);
+                let tag = classify(&msg, v["loc"].as_str().unwrap_or(""));
                 let msg = msg.split_whitespace().collect::<Vec<_>>().join(" ");
                 let mut desc = format!("loom execution #{} of config `{}`: {}", v["iters"], v["name"].as_str().unwrap_or(""), msg);
-                if !msg.contains("[[") && (tag == "panic" || tag == "no-progress") {
+                if !msg.contains("[[") && (tag == "panic" || tag == "capacity") {
                     desc.push_str(&format!(" (at {}); stderr tail: {}", v["loc"].as_str().unwrap_or("?"), v["stderr"].as_str().unwrap_or("")));
                 }
                 fails.push(Failure { idx: v["idx"].as_u64().unwrap() as usize, name: v["name"].as_str().unwrap().to_string(), tag, desc });
@@ -507,6 +483,14 @@ fn run_subcheck(args: &vcommon::Args, sub: &Sub) -> vcommon::SubResult {
         let v = &done[i];
         res.sample(json!({"config": v["name"], "preemption_bound": v["bound"], "executions": v["iters"], "scheduling_points": v["branches"], "one_observed_outcome": v["sample"]}));
     }
+    // a kernel that does not run on loom is a machinery failure, never a verdict
+    if let Some(f) = fails.iter().find(|f| f.tag == "un-instrumented") {
+        machinery(&format!("{}: {}", sub.name, f.desc));
+    }
+    // so is running into a capacity of loom (operation counter, branch limit, thread limit)
+    if let Some(f) = fails.iter().find(|f| f.tag == "capacity") {
+        machinery(&format!("{}: harness capacity exceeded, not a verdict about the subject: {}", sub.name, f.desc));
+    }
     // one violation per failure class: the simplest failing config in enumeration order
     let mut seen = std::collections::BTreeSet::new();
     for f in &fails {
@@ -568,6 +552,7 @@ fn replay(file: &str) -> ! {
         Bound::Unbounded => "none".to_string(),
         Bound::Tier => tier_bound(thorough).to_string(),
         Bound::Fixed(n) => n.to_string(),
+        Bound::Adaptive(_) => format!("none or {} (measured in the child)", tier_bound(thorough)),
     };
     println!("replay: {} ({}) config `{}` tier {} preemption bound {}", sub.name, sub.property, config, tier, eff);
     println!("recorded key : {}", w["key"].as_str().unwrap_or("?"));
@@ -578,6 +563,9 @@ fn replay(file: &str) -> ! {
     for f in &fails {
         println!("observed     : {}:{}:{}", sub.name, f.name, f.tag);
         println!("               {}", f.desc);
+    }
+    if let Some(f) = fails.iter().find(|f| f.tag == "capacity" || f.tag == "un-instrumented") {
+        machinery(&format!("replay: {}: {}", f.tag, f.desc));
     }
     if fails.is_empty() {
         println!("verdict      : violation does NOT reproduce");
